@@ -271,8 +271,6 @@ def orderSensitive (ks : List (Row → Val)) (aggs : List XAgg) (X : List Row) :
   dedup (aggs.filterMap (fun a =>
     let cols := groups.map (fun g => g.map a.arg)
     match a.kind with
-    | .sum => if cols.any (fun c => c.any Val.isNull && c.any (fun v => !v.isNull))
-              then some "order-sensitive:agg:sum/row-path/null-after-value" else none
     | .first => if cols.any (fun c => (dedup (nonNull c)).length > 1)
                 then some "order-sensitive:agg:first/row-path" else none
     | .last => if cols.any (fun c => (dedup c).length > 1)
